@@ -299,6 +299,10 @@ def rule_N3(F, R):
                 continue
             v = r[3][0][1]
             conds = {a: o for (a, o, _bb) in p.atoms}
+            # `a != b` false is `a == b` true
+            for (a, o, _bb) in p.atoms:
+                if a[0] == "call" and isinstance(a[1], str) and a[1].endswith("PartialEq::ne") and isinstance(o, bool):
+                    conds[("call", a[1][:-2] + "eq") + tuple(a[2:])] = not o
             can_true = None
             if v[0] == "K":
                 can_true = str(v[1]).replace("const ", "") == "true"
@@ -884,15 +888,14 @@ def rule_Q5(F, R):
     for p, b in F.bodies.items():
         if "storage::sqlite::schema" not in p or not b.get("blocks") or b["kind"] not in ("Fn", "AssocFn"):
             continue
-        if not re.search(r"upgrade", p):
-            continue
+        # every function of the schema module: an upgrade may delegate its statements to helpers
         c = cfg_of(b)
         for (i, sv) in roles.sql_in_body(F, b):
             if re.match(r"^\s*(CREATE|ALTER|DROP|INSERT)\b", sv, re.I):
                 t = c.term(i)
                 stmts.append(((t["sp"].get("l", 0) if t else 0), " ".join(sv.replace("\\n", " ").replace("\\t", " ").split()), p, i))
     stmts.sort(key=lambda x: (x[0], x[1]))
-    if not R.floor("Q5", "schema statements in the upgrade functions", len(stmts), 6):
+    if not R.floor("Q5", "schema statements in the upgrade functions", len(stmts), 3):
         return
     tables = {}
     copied = {}      # old table -> set of stored columns copied out of it
